@@ -127,7 +127,7 @@ def run(ck):
                      else "proof obligation no longer checks: %s" % ck.proof["broken"], {"examples": [c[0] for c in corr[:5]], "broken_obligation": ck.proof.get("broken")}, tag="correspondence", no_input=True)
     ck.assumptions = ["std::shared_ptr / allocate_shared semantics (reference count = number of handles) trusted", "moved-from handles are only destroyed or assigned to (discipline of the model)",
                       "sharing observed through address equality of the const poly_obj()"]
-    vf.run_deps(ck, ['C17'])
+    vf.run_deps(ck, ['C17', 'C07'])
     return ck.finish(trusted=["coqc 8.16.1 kernel", "extraction + driver.ml", "h_polyp.cpp interpreter, AddressSanitizer + LeakSanitizer + UBSan"])
 
 def replay(ck, rec):
